@@ -1,5 +1,5 @@
 """C18 — buffered writes are flushed once they are about ten seconds old."""
-from ..rules_commit import check_age_test, check_commit_discipline
+from ..rules_commit import check_age_test, check_commit_discipline, check_fresh_age
 from ..core import Report
 
 
@@ -13,6 +13,7 @@ def check(prog, rep):
     rep.trusted_base = ["the wall clock is non-decreasing between two calls", "conn.commit() makes the transaction durable (C06 trusted base)"]
     rep.not_decided = ["wall-clock monotonicity", "durability of the commit itself"]
     check_age_test(prog, rep)
+    check_fresh_age(prog, rep)
     # every event write reaches conditional_commit: reuse C06's rule B silently and import only its B obligations
     sub = Report("C18", rep.tier, rep.repo, quiet=True)
     check_commit_discipline(prog, sub)
@@ -34,6 +35,9 @@ VARIANTS = [
     ("B last_commit not stamped by commit()", SQ, "        self.conn.commit()\n        self.last_commit = datetime.now()\n", "        self.conn.commit()\n", "AGE-STAMP"),
     ("B comparison inverted", SQ, "if (datetime.now() - self.last_commit) > timedelta(seconds=10):", "if (datetime.now() - self.last_commit) < timedelta(seconds=10):", "AGE"),
     ("B replace_last bypasses conditional_commit", SQ, "        self.conn.execute(query, [starttime, endtime, datastr, bucket_id])\n        self.conditional_commit(1)\n", "        self.conn.execute(query, [starttime, endtime, datastr, bucket_id])\n", "COMMIT-B"),
+    ("B age test reads the UTC clock, stamps the local one", SQ, "if (datetime.now() - self.last_commit) > timedelta(seconds=10):", "if (datetime.utcnow() - self.last_commit) > timedelta(seconds=10):", "AGE-STAMP"),
+    ("OK all three clock reads switched to time-zone aware UTC", SQ, "datetime.now()", "datetime.now(timezone.utc)", "ok"),
+    ("B replace_last reads the newest event through get_events (which flushes) and delegates", SQ, "        self.conn.execute(query, [starttime, endtime, datastr, bucket_id])\n        self.conditional_commit(1)\n        return True", "        last = self.get_events(bucket_id, 1)\n        if last:\n            self.replace(bucket_id, last[0].id, event)\n        return True", "AGE-FRESH"),
     ("OK now hoisted", SQ, "            if (datetime.now() - self.last_commit) > timedelta(seconds=10):", "            now = datetime.now()\n            if (now - self.last_commit) > timedelta(seconds=10):", "ok"),
     ("OK compared as instants", SQ, "if (datetime.now() - self.last_commit) > timedelta(seconds=10):", "if datetime.now() > self.last_commit + timedelta(seconds=10):", "ok"),
     ("OK seconds via total_seconds", SQ, "if (datetime.now() - self.last_commit) > timedelta(seconds=10):", "if (datetime.now() - self.last_commit).total_seconds() >= 10:", "ok"),
